@@ -34,6 +34,9 @@ var c07Sets = [][]c07Route{
 	{{"GET", "/", nil}, {"GET", "/a", nil}, {"GET", "/{x}", nil}, {"GET", "/a/{m: **}", nil}, {"GET", "/a/b/?c", nil}, {"GET", "/{r: /[a.]+/}/z", nil}},
 	{{"GET", "/a", nil}, {"POST", "/a", nil}, {"*", "/{x}", nil}, {"HEAD", "/a/{m: **}/z", nil}},
 	{{"GET", "/a.{x}", nil}, {"GET", "/{x}.{y}", nil}, {"GET", "/a/{x}-{y}/?z", nil}},
+	// a static route registered for all methods after an optional twin for GET only, with header
+	// constraints (every method's leaf has its own standing in its own tree)
+	{{"GET", "/a/?b", nil}, {"*", "/a/b", []string{"X-K", "^v$"}}, {"POST", "/{m: **}", nil}},
 	// a larger mixed table (many siblings of every kind under two prefixes)
 	{{"GET", "/", nil}, {"GET", "/a", nil}, {"GET", "/a/", nil}, {"GET", "/a/b", nil}, {"GET", "/a/{x}", nil}, {"GET", "/a/{r: /[a2]+/}/z", nil}, {"GET", "/a/{m: **, capture: 3}/z", nil},
 		{"GET", "/a/c/?d", nil}, {"GET", "/z/{p}/{q}", nil}, {"GET", "/z/{p}/{q}/{r: /z+/}", nil}, {"GET", "/z/{m: **}", nil}, {"GET", "/{x}/z", nil}, {"GET", "/{s: /[.?]+/}", nil},
@@ -152,8 +155,15 @@ type c07Case struct {
 	Headers      map[string][]string `json:"headers,omitempty"`
 }
 
-func c07Judge(m *ref.Matcher, w *c07World, userNF, withMW bool, method, path string, hdr map[string][]string) (bad, kind, class string) {
+func c07Judge(m *ref.Matcher, w *c07World, userNF, withMW bool, method, path string, hdr map[string][]string, twins ...*c07World) (bad, kind, class string) {
 	o1 := w.serve(method, path, hdr)
+	// the outcome is a function of the registered routes and the request alone: other instances built by
+	// the same calls must answer the same
+	for _, tw := range twins {
+		if o := tw.serve(method, path, hdr); o != o1 {
+			return fmt.Sprintf("two instances built by the same registrations answer differently: %+v vs %+v", o1, o), "instance-dependent", ""
+		}
+	}
 	if o1.panicked != "" {
 		return "ServeHTTP panicked: " + o1.panicked, "panic", ""
 	}
@@ -186,6 +196,15 @@ func c07Judge(m *ref.Matcher, w *c07World, userNF, withMW bool, method, path str
 		return "", "", "notfound-chain"
 	}
 	return "", "", "route-chain"
+}
+
+func c07HasHdr(set []c07Route) bool {
+	for _, r := range set {
+		if len(r.Hdr) > 0 {
+			return true
+		}
+	}
+	return false
 }
 
 func c07Paths(thorough bool) []string {
@@ -240,9 +259,10 @@ func c07Run(r *core.Run) {
 		for ji := w; ji < len(jobs); ji += nw {
 			j := jobs[ji]
 			world := c07Build(c07Sets[j.si], j.userNF, j.mw)
+			twins := []*c07World{c07Build(c07Sets[j.si], j.userNF, j.mw), c07Build(c07Sets[j.si], j.userNF, j.mw), c07Build(c07Sets[j.si], j.userNF, j.mw)}
 			l.States++
 			hdrs := c07HdrSets[:1]
-			if j.si == 8 {
+			if len(c07Sets[j.si]) > 0 && c07HasHdr(c07Sets[j.si]) {
 				hdrs = c07HdrSets
 			}
 			for pi, p := range paths {
@@ -256,7 +276,7 @@ func c07Run(r *core.Run) {
 					if strings.ContainsAny(p, "%\x00\xff{?.2F") || (j.method != "GET" && j.method != "POST" && j.method != "HEAD") {
 						l.NonTrivial++
 					}
-					bad, kind, class := c07Judge(m, world, j.userNF, j.mw, j.method, p, hdr)
+					bad, kind, class := c07Judge(m, world, j.userNF, j.mw, j.method, p, hdr, twins...)
 					if bad != "" {
 						l.Class("mismatch")
 						l.Violate(fmt.Sprintf("%s/set=%d", kind, j.si), bad+fmt.Sprintf(" [set %d, %s %q]", j.si, j.method, trunc(p)),
@@ -283,7 +303,8 @@ func c07Replay(raw json.RawMessage) (bool, string) {
 		return false, err.Error()
 	}
 	w := c07Build(c.Set, c.UserNotFound, c.Middleware)
-	bad, _, _ := c07Judge(ref.NewMatcher(), w, c.UserNotFound, c.Middleware, c.Method, string(path), c.Headers)
+	twins := []*c07World{c07Build(c.Set, c.UserNotFound, c.Middleware), c07Build(c.Set, c.UserNotFound, c.Middleware), c07Build(c.Set, c.UserNotFound, c.Middleware)}
+	bad, _, _ := c07Judge(ref.NewMatcher(), w, c.UserNotFound, c.Middleware, c.Method, string(path), c.Headers, twins...)
 	return bad != "", bad
 }
 
